@@ -61,3 +61,124 @@ def tzify(dt):
 def days(n=0, *a, **k):
     """Stub for datetime.timedelta on the integer timeline (only timedelta(1) is used by the code)."""
     return n * 86400
+
+
+# ---------------------------------------------------------------------------------------------------
+# Stand-ins for icalendar components / property values with IDENTITY (de)serialisation on an abstract
+# token (DESIGN.md 3.3): `value.to_ical()` returns a Tok wrapping the value object, `X.from_ical(tok)`
+# unwraps it.  Parsing and formatting of real iCalendar text is outside the claim (A6).
+
+
+class Tok:
+    """Serialised form of a value (what the index stores)."""
+
+    __slots__ = ("val",)
+
+    def __init__(self, val):
+        self.val = val
+
+    def decode(self, *a):
+        return self
+
+    def __repr__(self):
+        return f"Tok({self.val!r})"
+
+
+class MText:
+    """Stand-in for icalendar.prop.vText: text carrying `.params`.  Deliberately NOT a str subclass, so that
+    the wrapped string can stay a solver variable; `str(x)` / `c in x` / `x.upper()` behave like the text."""
+
+    def __init__(self, value="", params=None):
+        if isinstance(value, Tok):
+            value = value.val
+        if isinstance(value, MText):
+            value, params = value.s, value.params
+        self.s = value
+        self.params = dict(params or {})
+
+    def __str__(self):
+        return self.s
+
+    def __contains__(self, c):
+        return c in self.s
+
+    def __eq__(self, other):
+        return self.s == (other.s if isinstance(other, MText) else other)
+
+    def __hash__(self):
+        return hash(self.s)
+
+    def upper(self):
+        return self.s.upper()
+
+    def lower(self):
+        return self.s.lower()
+
+    def to_ical(self):
+        return Tok(self)
+
+    @classmethod
+    def from_ical(cls, tok):
+        return tok.val if isinstance(tok, Tok) else tok
+
+
+class MCat:
+    """Stand-in for icalendar.prop.vCategory: `.cats` is a list of texts."""
+
+    def __init__(self, cats, params=None):
+        if isinstance(cats, Tok):
+            cats = cats.val
+        if isinstance(cats, MCat):
+            cats, params = cats.cats, cats.params
+        self.cats = list(cats)
+        self.params = dict(params or {})
+
+    def to_ical(self):
+        return Tok(self)
+
+    @classmethod
+    def from_ical(cls, tok):
+        return tok.val if isinstance(tok, Tok) else tok
+
+
+class MDDD(Val):
+    """Stand-in for icalendar.prop.vDDDTypes (date / date-time / duration values)."""
+
+    def __init__(self, dt, params=None):
+        if isinstance(dt, Tok):
+            dt = dt.val
+        if isinstance(dt, Val):
+            dt, params = dt.dt, dt.params
+        Val.__init__(self, dt, params)
+
+    def to_ical(self):
+        return Tok(self)
+
+    @classmethod
+    def from_ical(cls, tok, *a):
+        return tok.val if isinstance(tok, Tok) else tok
+
+
+class MFactory:
+    """Stand-in for icalendar.prop.TypesFactory.for_property."""
+
+    def for_property(self, name):
+        n = name.upper()
+        if n == "CATEGORIES":
+            return MCat
+        if n in ("DTSTART", "DTEND", "DUE", "CREATED", "COMPLETED", "DURATION", "DTSTAMP"):
+            return MDDD
+        return MText
+
+
+class MComp(dict):
+    """Stand-in for icalendar.cal.Component: a dict of properties (upper-case names) with .name / .subcomponents."""
+
+    def __init__(self, name, props=None, subs=None):
+        dict.__init__(self, props or {})
+        self.name = name
+        self.subcomponents = list(subs or [])
+        self.errors = []
+
+    def __bool__(self):
+        return True
